@@ -371,12 +371,17 @@ class CaptionSet:
         e.g. if skew == 1.1, and offset is 5, a caption originally
         displayed from 10-11 seconds would instead be at 16-17.1
         """
+        # a caption object may be listed more than once (in two languages,
+        # or twice in a list): it is re-timed once
+        adjusted = set()
         for lang in self.get_languages():
             captions = self.get_captions(lang)
             out_captions = CaptionList()
             for caption in captions:
-                caption.start = caption.start * rate_skew + offset
-                caption.end = caption.end * rate_skew + offset
+                if id(caption) not in adjusted:
+                    adjusted.add(id(caption))
+                    caption.start = caption.start * rate_skew + offset
+                    caption.end = caption.end * rate_skew + offset
                 if caption.start >= 0:
                     out_captions.append(caption)
             self.set_captions(lang, out_captions)
